@@ -130,12 +130,19 @@ func LineComments() {
 		total += len(st) + 1
 	}
 	g1 := vrt.Choice(total)
-	body := vrt.BytesIn(vrt.IntRange(0, 1+vrt.Tier()), "c #%>\"{")
-	end := "\n"
+	var body, end, after string
 	if vrt.Bool() {
-		end = "\r\n"
+		// longer comment texts that look like code or like tag delimiters
+		pool := []string{"%>", " was: <%= x %> before", " %> <% ", " let y = 9", "\" %>", "<%# %>"}
+		body, end, after = pool[vrt.Choice(len(pool))], "\n", ""
+	} else {
+		body = vrt.BytesIn(vrt.IntRange(0, 1+vrt.Tier()), "c #%>\"{")
+		end = "\n"
+		if vrt.Bool() {
+			end = "\r\n"
+		}
+		after = vrt.BytesIn(vrt.IntRange(0, 1), " \t")
 	}
-	after := vrt.BytesIn(vrt.IntRange(0, 1), " \t")
 	s := ""
 	g := 0
 	for _, st := range p.stmts {
